@@ -52,6 +52,7 @@ inductive Op (α : Type) where
   | root (r : Op α)
   | lowRankRoot (r : Op α)
   | chol (r : Op α)
+  | cholU (r : Op α)         -- CholLinearOperator(R, upper=True): Rᵀ R
   | kron (a b : Op α)
   | kronTri (a b : Op α)
   | kronDiag (a b : Op α)
@@ -77,7 +78,7 @@ mutual
   def rows : Op α → Nat
     | dense n _ _ => n | diag n _ => n | constDiag n _ => n | identity n => n | zero n _ => n
     | tri _ t => t.rows | toep n _ => n | opq _ n _ _ => n
-    | root r => r.rows | lowRankRoot r => r.rows | chol r => r.rows
+    | root r => r.rows | lowRankRoot r => r.rows | chol r => r.rows | cholU r => r.rows
     | kron a b => a.rows * b.rows | kronTri a b => a.rows * b.rows | kronDiag a b => a.rows * b.rows
     | addedDiag a _ => a.rows | kronAddedDiag a _ => a.rows | lrrAddedDiag a _ => a.rows
     | sum l => rowsL l | psdSum l => rowsL l | sumKron a _ => a.rows
@@ -91,7 +92,7 @@ mutual
   def cols : Op α → Nat
     | dense _ m _ => m | diag n _ => n | constDiag n _ => n | identity n => n | zero _ m => m
     | tri _ t => t.cols | toep n _ => n | opq _ _ m _ => m
-    | root r => r.rows | lowRankRoot r => r.rows | chol r => r.rows
+    | root r => r.rows | lowRankRoot r => r.rows | chol r => r.rows | cholU r => r.rows
     | kron a b => a.cols * b.cols | kronTri a b => a.cols * b.cols | kronDiag a b => a.rows * b.rows
     | addedDiag a _ => a.cols | kronAddedDiag a _ => a.cols | lrrAddedDiag a _ => a.cols
     | sum l => colsL l | psdSum l => colsL l | sumKron a _ => a.cols
@@ -138,6 +139,7 @@ mutual
     | root r => fun i j => sumN r.cols fun k => r.denote i k * r.denote j k
     | lowRankRoot r => fun i j => sumN r.cols fun k => r.denote i k * r.denote j k
     | chol r => fun i j => sumN r.cols fun k => r.denote i k * r.denote j k
+    | cholU r => fun i j => sumN r.rows fun k => r.denote k i * r.denote k j
     | kron a b => fun i j => a.denote (i / b.rows) (j / b.cols) * b.denote (i % b.rows) (j % b.cols)
     | kronTri a b => fun i j => a.denote (i / b.rows) (j / b.cols) * b.denote (i % b.rows) (j % b.cols)
     | kronDiag a b => fun i j => if i = j then diagOf a (i / b.rows) * diagOf b (i % b.rows) else 0
@@ -179,7 +181,7 @@ def isDense : Op α → Bool
 
 /-- `isinstance(o, RootLinearOperator)`: Root, LowRankRoot, Chol. -/
 def isRoot : Op α → Bool
-  | root .. | lowRankRoot .. | chol .. => true
+  | root .. | lowRankRoot .. | chol .. | cholU .. => true
   | _ => false
 
 def isLowRankRoot : Op α → Bool
@@ -209,7 +211,7 @@ def sumOps : Op α → List (Op α)
 
 /-- the root factor of a RootLinearOperator instance. -/
 def rootOf : Op α → Op α
-  | root r => r | lowRankRoot r => r | chol r => r
+  | root r => r | lowRankRoot r => r | chol r => r | cholU r => r
   | o => o
 
 end Op
@@ -262,6 +264,7 @@ mutual
     | .root r => .root r
     | .lowRankRoot r => .lowRankRoot r
     | .chol r => .chol r
+    | .cholU r => .cholU r
     | .kron a b => .kron (transposeOp a) (transposeOp b)
     | .kronTri a b => .kronTri (transposeOp a) (transposeOp b)
     | .kronDiag a b => .kronDiag a b
@@ -329,6 +332,14 @@ def addJitter (a : Op α) (c : α) : Except Err (Op α) :=
 
 /-! ### `__add__` -/
 
+/-- the operator `add_low_rank` adds for a root-form `other`: `root @ root.mT`.  For an upper-orientation Cholesky
+operator the model takes the intended `root.mT @ root` (= the operator's value); the code still adds
+`root @ root.mT` there — defect D64, `open:` in known_findings.txt, fix notes/C02_fix_11.diff. -/
+def lowRankTerm (b : Op α) : Op α :=
+  match b with
+  | .cholU r => .matmul (rootT r) r
+  | b => .matmul b.rootOf (rootT b.rootOf)
+
 /-- `LinearOperator.__add__` (base class ladder). -/
 def baseAdd (a b : Op α) : Except Err (Op α) :=
   if b.isZero then .ok a
@@ -336,7 +347,7 @@ def baseAdd (a b : Op α) : Except Err (Op α) :=
   else if b.isRoot then
     -- add_low_rank(other.root): self + (root @ root.mT), re-dispatched; every class whose ladder ends
     -- here answers a MatmulLinearOperator operand with SumLinearOperator(self, other)
-    .ok (.sum [a, .matmul b.rootOf (rootT b.rootOf)])
+    .ok (.sum [a, lowRankTerm b])
   else .ok (.sum [a, b])
 
 /-- `Diag.__add__` / `ConstantDiag.__add__` for a diagonal left operand `a`. -/
@@ -421,6 +432,8 @@ mutual
     | .lowRankRoot r, c =>
       if S.pos c then .lowRankRoot (mulConst S r (S.sqrt c)) else .constMul (.lowRankRoot r) c
     | .chol r, c => if S.pos c then .chol (mulConst S r (S.sqrt c)) else .constMul (.chol r) c
+    -- CholLinearOperator._mul_constant (1d40e0d): upper orientation kept when folding sqrt(c)
+    | .cholU r, c => if S.pos c then .cholU (mulConst S r (S.sqrt c)) else .constMul (.cholU r) c
     | .mul a b, c => if S.pos c then mkMul (mulConst S a c) b else .constMul (.mul a b) c
     | .sum l, c => .sum (mulConstL S l c)
     | .psdSum l, c => .psdSum (mulConstL S l c)
@@ -600,7 +613,7 @@ variable {α : Type}
 def clsName : Op α → String
   | dense .. => "Dense" | diag .. => "Diag" | constDiag .. => "ConstantDiag" | identity .. => "Identity"
   | zero .. => "Zero" | tri .. => "Triangular" | toep .. => "Toeplitz" | opq c .. => s!"Opaque{c}"
-  | root .. => "Root" | lowRankRoot .. => "LowRankRoot" | chol .. => "Chol"
+  | root .. => "Root" | lowRankRoot .. => "LowRankRoot" | chol .. => "Chol" | cholU .. => "Chol"
   | kron .. => "KroneckerProduct" | kronTri .. => "KroneckerProductTriangular" | kronDiag .. => "KroneckerProductDiag"
   | addedDiag .. => "AddedDiag" | kronAddedDiag .. => "KroneckerProductAddedDiag"
   | lrrAddedDiag .. => "LowRankRootAddedDiag" | sum .. => "Sum" | psdSum .. => "PsdSum"
@@ -612,6 +625,7 @@ mutual
     | root r => "Root(" ++ r.tree ++ ")"
     | lowRankRoot r => "LowRankRoot(" ++ r.tree ++ ")"
     | chol r => "Chol(" ++ r.tree ++ ")"
+    | cholU r => "Chol(" ++ r.tree ++ ")"
     | kron a b => "KroneckerProduct(" ++ a.tree ++ "," ++ b.tree ++ ")"
     | kronTri a b => "KroneckerProductTriangular(" ++ a.tree ++ "," ++ b.tree ++ ")"
     | kronDiag a b => "KroneckerProductDiag(" ++ a.tree ++ "," ++ b.tree ++ ")"
